@@ -42,6 +42,7 @@ CONF = dict(
                  'time.Time as unbounded nanoseconds; the kernel (which datagrams arrive, in which order, from where, with which receive stamp), the clock readings and, for '
                  'SCION, the gopacket/scionproto parse and the CMAC comparison are inputs of the model, quantified over without restriction (ideal MAC: the theorems speak about '
                  '"the MAC of the authenticator the client looks at verifies", the harness decides that with scionproto spao.ComputeAuthCMAC under the mock key)',
+                 'a history in which the client port of an exchange was, while its socket can have existed, also the target of another exchange whose scripted peer was still sending (all clients share one address; ephemeral ports are reused) is not reported: a stray datagram of that other script may have reached it (3-9 of 3800 histories per run under load; the harness prints the number)',
                  'payloads are byte strings (0..255) for the oracle theorem; the views handed to the oracle are faithful (flags do not understate the facts) for whichever request is outstanding'],
     trusted=['modelled, not verified: net.UDPConn.ReadMsgUDPAddrPort (MSG_TRUNC when the datagram exceeds the buffer), miscreant AES-SIV-CMAC (answers recomputed by the '
              'harness and matched against the model\'s query), crypto/tls exporter, the recording slog handler and measurements.Filter used to observe the client',
